@@ -137,6 +137,7 @@ func newHist(r *kit.Run, cfg *Config, u *Universe, rng *rand.Rand, id string, n0
 		return nil
 	}
 	r.Count(fmt.Sprintf("histories_with_N0=%d", n0), 1)
+	r.Count("histories_with_genesis_indices_"+w.IndexShape, 1)
 	if hostile {
 		r.Count("hostile_histories", 1)
 	}
